@@ -42,7 +42,7 @@ def exhaustive_scenarios(polys, spin):
     scens = []
     labels = ["x", (1, 2), 3]
     for p in polys:
-        P = {tuple({"L0": labels[0], "L1": labels[1]}[n] for n in k): c for k, c in p.items()}
+        P = {tuple({"L0": labels[0], "L1": labels[1], "L2": labels[2]}[n] for n in k): c for k, c in p.items()}
         if not P:
             continue
         for rel in cs.RELS:
@@ -109,8 +109,10 @@ def run_generic(tier, out, spin, design_cfgs, tag, replay=None):
                     out.violation("spec:" + ",".join(r.violated), "spec-level %s %s" % (cfgname, ",".join(r.violated)), r.stdout[-2500:])
         from . import pure
         polys, udesc = pure.universe("2f" if thorough else "2s", wd)
-        ex = exhaustive_scenarios(polys, spin)
+        polys3, udesc3 = pure.universe("3" if thorough else "3q", wd)      # three labels: product terms sharing a variable
+        ex = exhaustive_scenarios(polys, spin) + exhaustive_scenarios(polys3, spin)
         out.set("exhaustive_universe", udesc)
+        out.set("exhaustive_universe_3_labels", udesc3)
         out.set("exhaustive_scenarios", len(ex))
         scens = ex + gen_scenarios(rng, 4000 if thorough else 450, spin)
         if replay:
